@@ -156,5 +156,9 @@ func verifH_C10_TTLKernelSymJ() { verifJitterSymbolic = true; verifH_C10_TTLKern
 
 var verifFloatIdealised = false
 
-func verifH_C10_TTLKernelIdeal()     { verifFloatIdealised = true; verifH_C10_TTLKernel() }
-func verifH_C10_TTLKernelIdealSymJ() { verifFloatIdealised = true; verifJitterSymbolic = true; verifH_C10_TTLKernel() }
+func verifH_C10_TTLKernelIdeal() { verifFloatIdealised = true; verifH_C10_TTLKernel() }
+func verifH_C10_TTLKernelIdealSymJ() {
+	verifFloatIdealised = true
+	verifJitterSymbolic = true
+	verifH_C10_TTLKernel()
+}
